@@ -116,6 +116,9 @@ def generate(rng, tier):
         b = ('T', r, c, c06.triplets_of(g, cells, elt))
         x = [c06.val(g, elt) for _ in range(c)]; y = [c06.val(g, elt) for _ in range(r)]
         cases.append(mk(elt, b, x, y, c06.val(g, elt), "product-" + elt))
+    # spread the expensive cases evenly over the Coq shards (the engine cuts the list into consecutive runs of 250)
+    k = max(1, (len(cases) + 249) // 250)
+    cases = [c for r in range(k) for c in cases[r::k]]
     return cases
 
 def case_from_json(j):
